@@ -161,7 +161,8 @@ func AppendDefaultLabelsHandlerWrapper(ref string, prefetchSize int64) func(f im
 						c.Annotations[targetRefLabel] = ref
 						c.Annotations[targetDigestLabel] = c.Digest.String()
 						var layers string
-						for i, l := range children[i:] {
+						idx := 0 // index in the layers label (children that are not layers are not listed there)
+						for _, l := range children[i:] {
 							if images.IsLayerType(l.MediaType) {
 								ls := fmt.Sprintf("%s,", l.Digest.String())
 								// This avoids the label hits the size limitation.
@@ -172,8 +173,9 @@ func AppendDefaultLabelsHandlerWrapper(ref string, prefetchSize int64) func(f im
 								layers += ls
 
 								// Store URLs of the neighbouring layer as well.
-								urlsKey := targetImageURLsLabelPrefix + fmt.Sprintf("%d", i)
+								urlsKey := targetImageURLsLabelPrefix + fmt.Sprintf("%d", idx)
 								c.Annotations[urlsKey] = appendWithValidation(urlsKey, l.URLs)
+								idx++
 							}
 						}
 						c.Annotations[targetImageLayersLabel] = strings.TrimSuffix(layers, ",")
